@@ -358,8 +358,12 @@ func TestBlockExecutionIsDeterministic(t *testing.T) {
 			for rep := 1; rep < reps; rep++ {
 				var pre func(*account.AccountDB)
 				list := txs
-				mode := rep % 4
+				mode := rep % 5
+				globalHeight := w.height
 				switch mode {
+				case 4: // a node whose own head is elsewhere (verifying a fork block): the process-global head
+					// height differs; no fork boundary lies in between, so the result must not
+					globalHeight = w.height + uint64(rapid.IntRange(1, 5000).Draw(t, "headAhead"))
 				case 1: // cold process-local caches
 					account.VerifResetProcessCaches()
 				case 2: // accounts first touched in a generated order, through read-only accessors
@@ -374,7 +378,7 @@ func TestBlockExecutionIsDeterministic(t *testing.T) {
 				case 3: // the same transaction set handed over in another order (the executor sorts it)
 					list = rapid.Permutation(txs).Draw(t, "listOrder")
 				}
-				got := boot.ExecWith(w.root, w.height, h, list, "fullverify", pre)
+				got := boot.ExecWith(w.root, globalHeight, h, list, "fullverify", pre)
 				if d := ref.diff(render(got)); d != "" {
 					t.Fatalf("repetition %d (mode %d) of the same block disagrees with the first run: %s\nblock: %s", rep, mode, d, descs(meta))
 				}
